@@ -180,5 +180,17 @@ def run(res, tier):
     elif not proved:
         found = any(i["status"] == "violation" for i in infos)
         if not found:
+            # search the model of the *current* library text (re-translated above) for operands on which a documented
+            # contract fails: lean/LibSearch.lean evaluates every contract on an edge grid
+            from common import LEAN_DIR
+            ls = subprocess.run(["lake", "env", "lean", "--run", "LibSearch.lean"], cwd=LEAN_DIR, capture_output=True, text=True, timeout=1200)
+            fails = [json.loads(l) for l in ls.stdout.splitlines() if l.startswith("{")]
+            stats["contract_search_failures"] = len(fails)
+            if fails:
+                found = True
+                res.violation({"reason": "a library function of lib/math.facto does not meet its documented contract on these operands (model of the current library text, lean/LibSearch.lean); the contract theorem no longer checks",
+                               "failing_inputs": fails, "problems": res.proof_problems, "obligation": MODULE,
+                               "replay_hint": "cd /verif/lean && lake env lean --run LibSearch.lean"})
+        if not found:
             res.violation({"reason": "a library contract or elaboration obligation of C17 no longer checks", "problems": res.proof_problems,
                            "log": res.proof_log[-1500:], "obligation": MODULE}, failing_input=False)
